@@ -469,7 +469,7 @@ class Machine(object):
                 attrs[k] = self.S["enc"][v]
             elif k == "total_digits" and "max_str_len" not in kw and "max_str_len" in attrs:
                 attrs[k] = v
-                attrs["max_str_len"] = v + 2   # digits + sign + decimal separator
+                attrs["max_str_len"] = v + 3   # digits + sign + leading zero + decimal separator
             else:
                 attrs[k] = v
         return attrs
